@@ -268,6 +268,29 @@ def _child(script, argv, env, cwd, stdin_fd, out_fd, err_fd, logfd, world,
         os._exit(code)
 
 
+def _plan_from_desc(world, plan):
+    """run-wide plan defaults carried by the world descriptor"""
+    d = getattr(world, 'desc', None)
+    if not d:
+        return
+    if d.get('drop_caps'):
+        plan['drop_caps'] = True      # permissions bite as for an ordinary owner
+    if d.get('partition_order_rel') and not plan.get('partition_order'):
+        plan['partition_order'] = [world.abs(m) for m in d['partition_order_rel']]
+    if d.get('fstypes_rel') and not plan.get('fstypes'):
+        plan['fstypes'] = dict((world.abs(m), t) for m, t in
+                               d['fstypes_rel'].items())
+    for k in ('umask', 'listdir_seed', 'euid'):
+        # listdir_seed: readdir order of this world; euid: the effective uid
+        # differs from the real one (set-uid wrapper)
+        if d.get(k) is not None and plan.get(k) is None:
+            plan[k] = d[k]
+    if d.get('same_ino_rel') and not plan.get('same_ino'):
+        # inode numbers coincide across volumes (they are per file system)
+        plan['same_ino'] = [world.abs(m) for m in d['same_ino_rel']]
+
+
+
 def run_cmd(world, cmd, args, stdin=b'', plan=None, cwd=None, env=None,
             contracts=None, argv0=None, watchdog=None, sched_sock=None,
             pty_stdin=False):
@@ -285,22 +308,7 @@ def run_cmd(world, cmd, args, stdin=b'', plan=None, cwd=None, env=None,
     if cmd == 'put' and 'TRASH_PUT_FAKE_UID_FOR_TESTING' not in e:
         pass  # os.getuid is patched by the shim; keep the env like a user's
     plan = dict(DEFAULT_PLAN, **(plan or {}))
-    if getattr(world, 'desc', None) and world.desc.get('drop_caps'):
-        plan['drop_caps'] = True      # permissions bite as for an ordinary owner
-    if getattr(world, 'desc', None) and world.desc.get('partition_order_rel') \
-            and not plan.get('partition_order'):
-        plan['partition_order'] = [world.abs(m) for m in
-                                   world.desc['partition_order_rel']]
-    if getattr(world, 'desc', None) and world.desc.get('fstypes_rel') \
-            and not plan.get('fstypes'):
-        plan['fstypes'] = dict((world.abs(m), t) for m, t in
-                               world.desc['fstypes_rel'].items())
-    if getattr(world, 'desc', None) and world.desc.get('umask') is not None \
-            and plan.get('umask') is None:
-        plan['umask'] = world.desc['umask']
-    if getattr(world, 'desc', None) and world.desc.get('listdir_seed') is not None \
-            and plan.get('listdir_seed') is None:
-        plan['listdir_seed'] = world.desc['listdir_seed']   # readdir order of this world
+    _plan_from_desc(world, plan)
     if contracts is None:
         contracts = DEFAULT_CONTRACTS
     cwd = cwd or world.cwd()
@@ -462,22 +470,7 @@ def run_cold(world, cmd, args, stdin=b'', plan=None, cwd=None, env=None,
             else:
                 e[k] = v
     plan = dict(DEFAULT_PLAN, **(plan or {}))
-    if getattr(world, 'desc', None) and world.desc.get('drop_caps'):
-        plan['drop_caps'] = True      # permissions bite as for an ordinary owner
-    if getattr(world, 'desc', None) and world.desc.get('partition_order_rel') \
-            and not plan.get('partition_order'):
-        plan['partition_order'] = [world.abs(m) for m in
-                                   world.desc['partition_order_rel']]
-    if getattr(world, 'desc', None) and world.desc.get('fstypes_rel') \
-            and not plan.get('fstypes'):
-        plan['fstypes'] = dict((world.abs(m), t) for m, t in
-                               world.desc['fstypes_rel'].items())
-    if getattr(world, 'desc', None) and world.desc.get('umask') is not None \
-            and plan.get('umask') is None:
-        plan['umask'] = world.desc['umask']
-    if getattr(world, 'desc', None) and world.desc.get('listdir_seed') is not None \
-            and plan.get('listdir_seed') is None:
-        plan['listdir_seed'] = world.desc['listdir_seed']   # readdir order of this world
+    _plan_from_desc(world, plan)
     if contracts is None:
         contracts = DEFAULT_CONTRACTS
     res = Result()
